@@ -14,7 +14,7 @@ func init() {
 		Assumptions: []string{"regexp.Regexp.String() returns the source text used to compile (regexp documentation)", "sync.Mutex and atomic.Value are correct"},
 	}
 	Properties["C04"] = PropSpec{
-		Rules:          []Rule{PoolCtor, ResLinear, Slots},
+		Rules:          []Rule{PoolCtor, PoolAPI, ResLinear, Slots},
 		DebugConfigToo: true,
 		Explanation:    "(being extended) POOL-CTOR: every field of a borrowed validator is assigned on every path before the object is returned, no field is read (directly or through a method of the half-built object) before it is assigned; a recycled Result is reset field by field by the clearing function the borrow applies; scratch schemas are overwritten as a whole before any use.",
 		NotDecided:     "Agreement of outcomes with a fresh process (behavioural); aliasing carried through dependencies.",
